@@ -3,6 +3,7 @@ from __future__ import annotations
 import functools
 from typing import Any
 
+import narwhals
 import numpy
 import pandas
 
@@ -30,6 +31,11 @@ def lag(data: Any, k: int = 1) -> Any:
 
 @lag.register
 def _(data: pandas.Series, offset: int = 1) -> pandas.Series:
+    return data.shift(offset)
+
+
+@lag.register
+def _(data: narwhals.Series, offset: int = 1) -> narwhals.Series:
     return data.shift(offset)
 
 
